@@ -287,15 +287,30 @@ proof fn c09_pto_period_doubles(b: int, base_us: int)
 // ---- loss::detect ------------------------------------------------------------------------------------
 // what layer F proves (lost_iff_rfc_with_granularity) implies soundness up to the timer granularity and the
 // strict RFC statement outside the recorded input class
-proof fn c09_loss_detect_sound_up_to_granularity(lost: bool, distance: int, sent: int, thr: int, now: int)
-    requires distance > 0, loss_lost_iff_with_granularity(lost, distance, sent, thr, now),
+proof fn c09_loss_detect_sound_up_to_granularity(lost: bool, distance: int, sent: int, thr: int, now: int, g: int)
+    requires distance > 0, g > 0, loss_lost_iff_with_granularity(lost, distance, sent, thr, now, g),
     ensures
-        loss_lost_only_if_threshold_with_slack(lost, distance, sent, thr, now),
+        loss_lost_only_if_threshold_with_slack(lost, distance, sent, thr, now, g),
         loss_time_threshold_implies_lost(lost, distance, sent, thr, now),
         loss_packet_threshold_implies_lost(lost, distance, sent, thr, now),
-        loss_lost_iff_rfc_outside_known(lost, distance, sent, thr, now),
-        // a declared loss is never more than 1 ms early
-        lost && distance < k_packet_threshold() ==> sent + thr - now < k_granularity_ns(),
+        loss_lost_iff_rfc_outside_known(lost, distance, sent, thr, now, g),
+        // a declared loss is never more than one granularity (1 ms) early
+        lost && distance < k_packet_threshold() ==> sent + thr - now < g,
+{
+}
+
+// The Kani harness evaluates the predicates in whole microseconds (timestamps have 1 us resolution) with the ns
+// threshold rounded DOWN for `now + g > sent + thr` and UP for `now >= sent + thr`; this is exact:
+proof fn c09_loss_detect_us_evaluation_is_exact(sent_us: int, now_us: int, thr_ns: int, f: int, sub: int)
+    requires 0 <= sub < 1000, thr_ns == 1000 * f + sub,
+    ensures
+        // floor: now + 1 ms > sent + thr  (ns)  <=>  now_us + 1000 > sent_us + floor_us(thr)
+        (1000 * now_us + k_granularity_ns() > 1000 * sent_us + thr_ns) <==> (now_us + k_granularity_us() > sent_us + f),
+        // ceil: now >= sent + thr (ns)  <=>  now_us >= sent_us + ceil_us(thr)
+        (1000 * now_us >= 1000 * sent_us + thr_ns) <==> (now_us >= sent_us + (if sub == 0 { f } else { f + 1 })),
+        // ceil: known class 0 < sent + thr - now <= 1 ms (ns)  <=>  0 < sent_us + ceil_us(thr) - now_us <= 1000
+        (0 < 1000 * sent_us + thr_ns - 1000 * now_us && 1000 * sent_us + thr_ns - 1000 * now_us <= k_granularity_ns())
+            <==> (0 < sent_us + (if sub == 0 { f } else { f + 1 }) - now_us && sent_us + (if sub == 0 { f } else { f + 1 }) - now_us <= k_granularity_us()),
 {
 }
 
